@@ -66,6 +66,7 @@ package stake
 //@   requires wf_delg(delegatee) && idx >= 0
 //@   modifies delegatee.Stakes, elems(delegatee.Stakes)
 //@   ensures wf_delg(delegatee)                                                                               [C11]
+//@   ensures arr(delegatee.Stakes) == old(arr(delegatee.Stakes)) && off(delegatee.Stakes) == old(off(delegatee.Stakes)) && len(delegatee.Stakes) <= old(len(delegatee.Stakes))   [C11]
 //@   ensures idx >= old(len(delegatee.Stakes)) ==> result == nil && delegatee.Stakes == old(delegatee.Stakes)  [C11]
 //@   ensures idx < old(len(delegatee.Stakes)) ==> result == old(delegatee.Stakes[idx]) && len(delegatee.Stakes) == old(len(delegatee.Stakes)) - 1   [C11]
 //@   ensures idx < old(len(delegatee.Stakes)) ==> (forall i :: 0 <= i && i < idx ==> delegatee.Stakes[i] == old(delegatee.Stakes[i])) && (forall i :: idx <= i && i < len(delegatee.Stakes) ==> delegatee.Stakes[i] == old(delegatee.Stakes[i + 1]))   [C11]
